@@ -37,7 +37,7 @@ TailStmts(tl, d) ==
       [] tl = "gcontinue" -> <<If1(Guard(d), <<Cnt>>)>>
 Tails(inLoop) == IF inLoop THEN LoopTails ELSE {"none"}
 
-\* the positioned constructs at depth d around a child block b (1..8 if forms, 9..11 loop forms)
+\* the positioned constructs at depth d around a child block b (1..8 and 13..15 if forms, 9..12 loop forms)
 IfForm(d, b, k) ==
     LET c1 == Cond(d, 1)  c2 == Cond(d, 2)  x == <<Log(10 * d + 5)>>  y == <<Log(10 * d + 6)>>  z == <<Log(10 * d + 7)>> IN
     CASE k = 1 -> <<If1(c1, b)>>
@@ -48,6 +48,10 @@ IfForm(d, b, k) ==
       [] k = 6 -> <<IfElifElse(c1, b, c2, y, z)>>
       [] k = 7 -> <<IfElifElse(c1, x, c2, b, z)>>
       [] k = 8 -> <<IfElifElse(c1, x, c2, y, b)>>
+      \* EMPTY arms followed by else / elif: a truthy empty arm ends the chain, nothing of the later arms runs
+      [] k = 13 -> <<IfElse(c1, <<>>, b)>>
+      [] k = 14 -> <<IfElifElse(c1, <<>>, c2, b, z)>>
+      [] k = 15 -> <<IfElifElse(c1, b, c2, <<>>, z)>>
 LoopForm(d, b, k) ==
     LET iv == "i" \o S(d)  vv == "v" \o S(d)  kv == "k" \o S(d) IN
     CASE k = 9 ->
@@ -72,9 +76,9 @@ Part(d, inLoop, k) ==
     LET wrap(mid) == { <<Log(10 * d + 1)>> \o mid \o TailStmts(tl, d) \o <<Log(10 * d + 2)>> : tl \in Tails(inLoop) } IN
     IF k = 0 THEN wrap(<<>>)
     ELSE IF d = 0 THEN {}
-    ELSE IF k <= 8 THEN UNION { wrap(IfForm(d, b, k)) : b \in Shapes(d - 1, inLoop) }
+    ELSE IF k <= 8 \/ k >= 13 THEN UNION { wrap(IfForm(d, b, k)) : b \in Shapes(d - 1, inLoop) }
     ELSE UNION { wrap(LoopForm(d, b, k)) : b \in Shapes(d - 1, TRUE) }
-Shapes(d, inLoop) == UNION { Part(d, inLoop, k) : k \in 0..12 }
+Shapes(d, inLoop) == UNION { Part(d, inLoop, k) : k \in 0..15 }
 
 Fn(name, body) == [k |-> "function", name |-> name, args |-> <<>>, last |-> FALSE, body |-> body]
 CallS(name) == SAssign("res", CallL(name, <<>>))
@@ -99,7 +103,7 @@ ProgramsPart(k, c) ==
                            [k |-> "while", cond |-> [k |-> "bin", op |-> "<", l |-> V("i9"), r |-> NumE(2)],
                             body |-> <<SAssign("i9", [k |-> "bin", op |-> "+", l |-> V("i9"), r |-> NumE(1)]), Fn("fa", b), CallS("fa")>>]>>
                           : b \in Part(Depth - 1, FALSE, k) }
-PartIds == (0..12) \X (1..7)
+PartIds == (0..15) \X (1..7)
 \* (an operator with a parameter: TLC must not pre-compute the whole family as a constant)
 ProgramsAll(dummy) == UNION { ProgramsPart(pc[1], pc[2]) : pc \in PartIds }
 
